@@ -11,6 +11,7 @@ from .ir import AnalysisBroken
 
 
 _cell_serial = [0]
+CELL_READ_HOOK = [None]   # set by a domain that wants to see reads of scalar variables (loop-carried dependences)
 
 
 # branch census of the abstract interpretation (adequacy of the shape families): condition -> outcomes seen.
@@ -352,6 +353,8 @@ class Interp:
 
     def rvalue(self, e, fr):
         x = self.eval(e, fr)
+        if CELL_READ_HOOK[0] is not None and isinstance(x, Cell):
+            CELL_READ_HOOK[0](x, e)
         if isinstance(x, Cell):
             x = x.get()
             if isinstance(x, Undef):
@@ -436,6 +439,8 @@ class Interp:
             c = self.eval(e["e"], fr)
             if not isinstance(c, Cell):
                 raise AnalysisBroken("++ on non-lvalue at %s" % ir.locstr(e))
+            if CELL_READ_HOOK[0] is not None:
+                CELL_READ_HOOK[0](c, e)
             old = c.get()
             if isinstance(old, Undef):
                 old = self.dom.read_undef(old, e, fr)
@@ -505,6 +510,8 @@ class Interp:
         if op == "=":
             self.dom.write(c, self.dom.copy_value(rhs, e.get("t", "")), e, fr)
         else:
+            if CELL_READ_HOOK[0] is not None:
+                CELL_READ_HOOK[0](c, e)
             old = c.get()
             if isinstance(old, Undef):
                 old = self.dom.read_undef(old, e, fr)
